@@ -57,6 +57,41 @@ type c19Op struct {
 	f    func(w *c19World) string
 }
 
+// c19Project converts the points to the given EPSG code and back, n times (each call looks the reference system up
+// again), and renders everything that was returned.
+func c19Project(pts []*object.Point, code int, n int) string {
+	var sb strings.Builder
+	for i := 0; i < n; i++ {
+		pp, e := shape.ConvertPointListToProjectedPointList(pts, code)
+		if e != nil {
+			sb.WriteString("error;")
+			continue
+		}
+		bk, e := shape.ConvertProjectedPointListToPointList(pp, code)
+		if i > 0 {
+			continue // the repetitions return the same values: render the first round only
+		}
+		for _, p := range pp {
+			fmt.Fprintf(&sb, "%v,%v,%v;", p.X, p.Y, p.Alt)
+		}
+		for _, p := range bk {
+			fmt.Fprintf(&sb, "%v,%v,%v;", p.Lon(), p.Lat(), p.Alt())
+		}
+		sb.WriteString(errStr(e))
+	}
+	return sb.String()
+}
+
+// c19ProjectAll: n conversions, every one rendered (a wrong reference system in any repetition shows)
+func c19ProjectAll(pts []*object.Point, code int, n int) string {
+	var sb strings.Builder
+	for i := 0; i < n; i++ {
+		sb.WriteString(c19Project(pts, code, 1))
+		sb.WriteString("|")
+	}
+	return sb.String()
+}
+
 func cs(raw []string, err error) string {
 	s, _ := canon(raw)
 	return fmt.Sprint(len(raw), s, errStr(err))
@@ -109,6 +144,11 @@ var c19Ops = []c19Op{
 			fmt.Fprintf(&sb, "%v,%v,%v;", p.Lon(), p.Lat(), p.Alt())
 		}
 		return sb.String() + errStr(e)
+	}},
+	{"shape.ConvertPointListToProjectedPointList(UTM 54N)+back", func(w *c19World) string { return c19Project(w.pts, 32654, 1) }},
+	{"shape.ConvertPointListToProjectedPointList(UTM 53N)+back", func(w *c19World) string { return c19Project(w.pts, 32653, 1) }},
+	{"shape.ConvertPointListToProjectedPointList(Lambert-93, unknown code)", func(w *c19World) string {
+		return c19Project(w.pts, 2154, 1) + c19Project(w.pts, 99999, 1)
 	}},
 	{"shape.ConvertSpatialIdsToExtendedSpatialIds", func(w *c19World) string {
 		r, e := shape.ConvertSpatialIdsToExtendedSpatialIds(w.sp)
@@ -600,6 +640,8 @@ func c19Fan(c *CaseC19, w *c19World, fl *Fails) {
 		{"transform.GetExtendedSpatialIdsWithinRadiusOfLine(not measured)", func(w *c19World) string {
 			return cs(transform.GetExtendedSpatialIdsWithinRadiusOfLine(w.cpts[0], w.cpts[1], w.radius, w.ch, w.ch, true))
 		}},
+		{"shape.ConvertPointListToProjectedPointList(UTM 54N) x40", func(w *c19World) string { return c19ProjectAll(w.pts, 32654, 40) }},
+		{"shape.ConvertPointListToProjectedPointList(EPSG:900913) x40", func(w *c19World) string { return c19ProjectAll(w.pts, 900913, 40) }},
 		{"detector.CheckSpatialIdsArrayOverlap(512)", func(*c19World) string {
 			r, e := detector.CheckSpatialIdsArrayOverlap(sp512, []string{ref.Box{H: 14, X: 4*131 + 1, Y: 4*215 + 2, V: 14, F: -9}.Spatial()})
 			return fmt.Sprint(r, errStr(e))
